@@ -37,8 +37,10 @@ class Trial:
         self.stop_flag = threading.Event()
         self.reentrant_budget = cfg.get("reentrant", 0)
         self.dup_mode = cfg.get("dups", False)
+        self.twin_mode = cfg.get("twins", False) and not self.dup_mode
         self.drained = False
         self.judge_until = 0
+        self.stop_sched_left = 0
         self._wrap_queue()
 
     # ---- boundary stamps on the observer's queue
@@ -97,7 +99,35 @@ class Trial:
             self.calls.append(rec)
         return rec
 
+    def _shuffle_heap(self):
+        """The observer keeps its emitters in a set ordered by id()-hash; objects created one after the other sit in that
+        order.  Punch random holes into the allocator's pool of emitter-sized blocks so that the next emitter may land
+        before older ones (the iteration order of stop()'s join loop then varies as it does in an application)."""
+        cls = self.obs._emitter_class
+        blocks = [cls.__new__(cls) for _ in range(12)]
+        keep = [b for b in blocks if self.r.random() < 0.5]
+        del blocks
+        self._fillers = keep
+
     def _hook(self, handler, event):
+        if self.stop_sched_left > 0 and event.src_path.split("/")[-1].startswith("z"):
+            # wind-up phase with stop() calls in flight: callbacks keep scheduling fresh watches, so the observer may
+            # hold emitters that were never started next to running ones when stop() joins them
+            for _ in range(4):
+                if not self.obs.should_keep_running():
+                    break
+                time.sleep(0.0005)  # give a stop() that is being issued the chance to land inside this callback
+            if not self.obs.should_keep_running():
+                # stop() has raised the flag and waits for the dispatcher: what is scheduled now is never started
+                for _ in range(self.r.randint(1, 3)):
+                    self.stop_sched_left -= 1
+                    self._shuffle_heap()
+                    self.api("schedule", int(handler.name[1:]), self.nw + 10 + self.stop_sched_left, reentrant=True)
+            elif self.r.random() < 0.5:
+                self.stop_sched_left -= 1
+                self._shuffle_heap()
+                self.api("schedule", int(handler.name[1:]), self.nw + self.stop_sched_left, reentrant=True)
+            return
         if self.reentrant_budget <= 0 or self.r.random() > self.cfg.get("reentrant_p", 0.05):
             return
         self.reentrant_budget -= 1
@@ -127,6 +157,11 @@ class Trial:
                     e.script.put(FileModifiedEvent(f"/w{k}/e{seq:05d}"))
                     if self.dup_mode and self.r.random() < 0.3:
                         e.script.put(FileModifiedEvent(f"/w{k}/e{seq:05d}"))
+                    if self.twin_mode and self.r.random() < 0.3:
+                        # a different event about the same path (other class / synthetic twin): not a duplicate, must arrive too
+                        from watchdog.events import FileClosedEvent
+
+                        e.script.put(self.r.choice([lambda p: FileModifiedEvent(p, is_synthetic=True), FileClosedEvent])(f"/w{k}/e{seq:05d}"))
             seq += 1
             if seq % 3 == 0:
                 time.sleep(0.0005)
@@ -224,7 +259,11 @@ class Trial:
                 if e.is_alive():
                     for i in range(6):
                         e.script.put(__import__("watchdog.events", fromlist=["FileModifiedEvent"]).FileModifiedEvent(f"/w{int(e.watch.path[2:])}/z{i:05d}"))
-            time.sleep(0.004)
+            if self.cfg.get("stop_sched"):
+                self.stop_sched_left = 5
+                time.sleep(self.r.choice([0, 0.0005, 0.002]))
+            else:
+                time.sleep(0.004)
             ts = [threading.Thread(target=lambda: self.api("stop"), name=f"wdv-stop{i}", daemon=True) for i in range(2)]
             for t in ts:
                 t.start()
@@ -318,7 +357,7 @@ class Trial:
                         continue  # queued while the trial was being wound up: may legitimately never be dispatched
                     counts["produced_judged"] = counts.get("produced_judged", 0) + 1
                     if id(ev) not in deq_of and not any(w["entry"][0] is ev for w in self.windows if isinstance(w["entry"], tuple)):
-                        ok = any(q == ev and deq_of.get(id(q), 10**18) > s_p for _, q in prev)
+                        ok = any(_same_event(q, ev) and deq_of.get(id(q), 10**18) > s_p for _, q in prev)
                         if ok:
                             counts["coalesced"] = counts.get("coalesced", 0) + 1
                         else:
@@ -335,7 +374,7 @@ class Trial:
                     continue
                 k = win_of[id(ev)][1]
                 if not self.dup_mode:
-                    if k in last and ev.src_path <= last[k]:
+                    if k in last and (ev.src_path < last[k] if self.twin_mode else ev.src_path <= last[k]):
                         viol.append(("C04", "out-of-order", f"handler h{h} received {ev.src_path} after {last[k]} (same watch)", {"handler": h}))
                     last[k] = ev.src_path
                 # C05: callback after the return of a removing call with no re-adding call started in between
@@ -365,6 +404,11 @@ class Trial:
                     if late:
                         viol.append(("C05", "emitter-produced-after-unschedule", f"emitter of {e.watch.path} queued an event after {c['op']} returned", {"call": c["op"]}))
         return {"counts": counts, "violations": viol}
+
+
+def _same_event(a, b):
+    """Reference equality of the statement of C16 (class and every field), independent of the library's own __eq__."""
+    return type(a) is type(b) and all(getattr(a, f) == getattr(b, f) for f in ("src_path", "dest_path", "event_type", "is_directory", "is_synthetic"))
 
 
 def instr_for_observer(seed):
